@@ -18,6 +18,16 @@
 //!   u.from_le u.from_be i.from_le i.from_be S -> hex
 //!   u.chunks N d:k                        to_chunks -> d:count c0 c1 …
 //!   u.from_chunks d:k c0 c1 …             from_chunks -> hex
+//!
+//! Float text I/O and base/precision changes (C08), `dispatch_float`:
+//!   float argument F = f:<base>:<signif hex int>:<exp dec>:<precision dec>:<mode Z|A|U|D|E|H>
+//!   float result     = <signif hex> <exp dec> <precision dec>
+//!   f.parse d:base M S              FromStr / from_str_native / Repr::from_str_native at base, mode M -> result | err Kind
+//!   f.fmt K P W FL F                K = disp | lexp | uexp ; P = none | d:precision ; W = none | d:width ; FL = - | + -> s:bytes
+//!   f.rt F                          to_string() then parse: -> `<text s:bytes> <result of the parse>`
+//!   f.with_base d:newbase F         with_base::<NewB>() -> result + Exact | Inexact:<adj>   (+ to_decimal / to_binary forms)
+//!   f.with_base_prec d:newbase d:p F   with_base_and_precision::<NewB>(p)
+//!   f.from_f32 <bits hex> M / f.from_f64 <bits hex> M   TryFrom<f32/f64> for FBig<M,2> and Repr<2> -> result | inf | -inf | err
 use dashu_base::ParseError;
 use dashu_int::{IBig, UBig};
 use std::fmt::{Binary, Display, LowerHex, Octal, UpperHex};
@@ -453,4 +463,339 @@ pub fn dispatch(op: &str, args: &[&str]) -> Option<Res> {
         Err(e) if e == "__none__" => None,
         other => Some(other),
     })
+}
+
+// =================================================================================================
+// C08: float text I/O, base and precision changes
+// =================================================================================================
+use dashu_base::Approximation;
+use dashu_float::round::{mode, Round, Rounded, Rounding};
+use dashu_float::{FBig, Repr};
+use dashu_int::Word;
+use std::convert::TryFrom;
+use std::fmt::{LowerExp, UpperExp};
+
+struct FArg {
+    base: u64,
+    signif: IBig,
+    exp: isize,
+    prec: usize,
+    mode: char,
+}
+
+fn p_farg(s: &str) -> Result<FArg, String> {
+    let t: Vec<&str> = s.split(':').collect();
+    if t.len() != 6 || t[0] != "f" {
+        return Err(format!("bad-arg float {}", s));
+    }
+    let bad = || format!("bad-arg float {}", s);
+    let base: u64 = t[1].parse().map_err(|_| bad())?;
+    let signif = p_ibig(t[2])?;
+    let exp: isize = t[3].parse().map_err(|_| bad())?;
+    let prec: usize = t[4].parse().map_err(|_| bad())?;
+    let mode = t[5].chars().next().ok_or_else(bad)?;
+    if t[5].len() != 1 {
+        return Err(bad());
+    }
+    Ok(FArg { base, signif, exp, prec, mode })
+}
+
+fn build<R: Round, const B: Word>(a: &FArg) -> FBig<R, B> {
+    FBig::<R, B>::from_repr(Repr::<B>::new(a.signif.clone(), a.exp), dashu_float::Context::<R>::new(a.prec))
+}
+
+fn ff<R: Round, const B: Word>(x: &FBig<R, B>) -> String {
+    if x.repr().is_infinite() {
+        return if x.repr().sign() == dashu_base::Sign::Negative { "-inf".into() } else { "inf".into() };
+    }
+    format!("{} {} {}", f_ibig(x.repr().significand()), x.repr().exponent(), x.precision())
+}
+
+fn fl(r: &Rounding) -> &'static str {
+    match r {
+        Rounding::NoOp => "NoOp",
+        Rounding::AddOne => "AddOne",
+        Rounding::SubOne => "SubOne",
+    }
+}
+
+fn fr<R: Round, const B: Word>(x: &Rounded<FBig<R, B>>) -> String {
+    match x {
+        Approximation::Exact(v) => format!("{} Exact", ff(v)),
+        Approximation::Inexact(v, e) => format!("{} Inexact:{}", ff(v), fl(e)),
+    }
+}
+
+fn fparse<R: Round, const B: Word>(s: &str) -> Res {
+    #[allow(deprecated)]
+    let rs = vec![
+        run1t(|| match s.parse::<FBig<R, B>>() {
+            Ok(v) => ff(&v),
+            Err(e) => perr(e),
+        }),
+        run1t(|| match FBig::<R, B>::from_str_native(s) {
+            Ok(v) => ff(&v),
+            Err(e) => perr(e),
+        }),
+        run1t(|| match Repr::<B>::from_str_native(s) {
+            Ok((r, n)) => {
+                if r.is_infinite() {
+                    "inf?".to_string()
+                } else {
+                    format!("{} {} {}", f_ibig(r.significand()), r.exponent(), n)
+                }
+            }
+            Err(e) => perr(e),
+        }),
+    ];
+    merge_parse(&["FromStr", "from_str_native", "Repr::from_str_native"], rs)
+}
+
+macro_rules! ffmt_leaf {
+    ($v:expr, $p:expr, $w:expr, $plus:expr, $t:literal) => {
+        match ($p, $w, $plus) {
+            (None, None, false) => format!(concat!("{:", $t, "}"), $v),
+            (None, None, true) => format!(concat!("{:+", $t, "}"), $v),
+            (Some(p), None, false) => format!(concat!("{:.p$", $t, "}"), $v, p = p),
+            (Some(p), None, true) => format!(concat!("{:+.p$", $t, "}"), $v, p = p),
+            (None, Some(w), false) => format!(concat!("{:w$", $t, "}"), $v, w = w),
+            (None, Some(w), true) => format!(concat!("{:+w$", $t, "}"), $v, w = w),
+            (Some(p), Some(w), false) => format!(concat!("{:w$.p$", $t, "}"), $v, w = w, p = p),
+            (Some(p), Some(w), true) => format!(concat!("{:+w$.p$", $t, "}"), $v, w = w, p = p),
+        }
+    };
+}
+
+fn ffmt<T: Display + LowerExp + UpperExp>(v: &T, kind: &str, p: Option<usize>, w: Option<usize>, plus: bool) -> Result<String, String> {
+    Ok(match kind {
+        "disp" => ffmt_leaf!(v, p, w, plus, ""),
+        "lexp" => ffmt_leaf!(v, p, w, plus, "e"),
+        "uexp" => ffmt_leaf!(v, p, w, plus, "E"),
+        _ => return Err(format!("bad-arg kind {}", kind)),
+    })
+}
+
+fn opt_usize(s: &str) -> Result<Option<usize>, String> {
+    if s == "none" {
+        Ok(None)
+    } else {
+        Ok(Some(p_usize(s)?))
+    }
+}
+
+fn frun<R: Round, const B: Word>(op: &str, args: &[&str]) -> Res {
+    match op {
+        "f.fmt" => {
+            let kind = arg(args, 0)?;
+            let p = opt_usize(arg(args, 1)?)?;
+            let w = opt_usize(arg(args, 2)?)?;
+            let plus = arg(args, 3)? == "+";
+            let a = build::<R, B>(&p_farg(arg(args, 4)?)?);
+            let mut names = vec!["fmt"];
+            let mut rs = vec![run1t(|| fs(ffmt(&a, kind, p, w, plus).unwrap()))];
+            if kind == "disp" && p.is_none() && w.is_none() && !plus {
+                names.push("to_string");
+                rs.push(run1t(|| fs(a.to_string())));
+            }
+            merge(&names, rs)
+        }
+        "f.rt" => {
+            let a = build::<R, B>(&p_farg(arg(args, 0)?)?);
+            merge(
+                &["rt"],
+                vec![run1t(|| {
+                    let text = a.to_string();
+                    let back = match text.parse::<FBig<R, B>>() {
+                        Ok(v) => ff(&v),
+                        Err(e) => perr(e),
+                    };
+                    format!("{} {}", fs(text), back)
+                })],
+            )
+        }
+        _ => Err(format!("bad-op {}", op)),
+    }
+}
+
+macro_rules! fmode_table {
+    ($f:ident, $b:literal, $mode:expr, $($args:expr),*) => {
+        match $mode {
+            'Z' => $f::<mode::Zero, $b>($($args),*),
+            'A' => $f::<mode::Away, $b>($($args),*),
+            'U' => $f::<mode::Up, $b>($($args),*),
+            'D' => $f::<mode::Down, $b>($($args),*),
+            'E' => $f::<mode::HalfEven, $b>($($args),*),
+            'H' => $f::<mode::HalfAway, $b>($($args),*),
+            m => Err(format!("bad-arg mode {}", m)),
+        }
+    };
+}
+
+macro_rules! fbase_table {
+    ($f:ident, $base:expr, $mode:expr, $($args:expr),*) => {
+        match $base {
+            2 => fmode_table!($f, 2, $mode, $($args),*),
+            3 => fmode_table!($f, 3, $mode, $($args),*),
+            8 => fmode_table!($f, 8, $mode, $($args),*),
+            10 => fmode_table!($f, 10, $mode, $($args),*),
+            16 => fmode_table!($f, 16, $mode, $($args),*),
+            36 => fmode_table!($f, 36, $mode, $($args),*),
+            b => Err(format!("bad-arg base {}", b)),
+        }
+    };
+}
+
+fn wb<R: Round, const B: Word, const NB: Word>(a: &FArg, p: Option<usize>) -> Res {
+    let x = build::<R, B>(a);
+    let mut names = vec!["with_base"];
+    let mut rs = vec![];
+    match p {
+        None => {
+            rs.push(run1t(|| fr(&x.clone().with_base::<NB>())));
+            if NB == 10 && a.mode == 'H' {
+                names.push("to_decimal");
+                rs.push(run1t(|| fr(&x.to_decimal())));
+            }
+            if NB == 2 && a.mode == 'Z' {
+                names.push("to_binary");
+                rs.push(run1t(|| fr(&x.to_binary())));
+            }
+        }
+        Some(p) => rs.push(run1t(|| fr(&x.clone().with_base_and_precision::<NB>(p)))),
+    }
+    merge(&names, rs)
+}
+
+macro_rules! wb_mode {
+    ($b:literal, $nb:literal, $a:expr, $p:expr) => {
+        match $a.mode {
+            'Z' => wb::<mode::Zero, $b, $nb>($a, $p),
+            'A' => wb::<mode::Away, $b, $nb>($a, $p),
+            'U' => wb::<mode::Up, $b, $nb>($a, $p),
+            'D' => wb::<mode::Down, $b, $nb>($a, $p),
+            'E' => wb::<mode::HalfEven, $b, $nb>($a, $p),
+            'H' => wb::<mode::HalfAway, $b, $nb>($a, $p),
+            m => Err(format!("bad-arg mode {}", m)),
+        }
+    };
+}
+
+fn with_base(a: &FArg, nb: u64, p: Option<usize>) -> Res {
+    match (a.base, nb) {
+        (2, 10) => wb_mode!(2, 10, a, p),
+        (10, 2) => wb_mode!(10, 2, a, p),
+        (2, 16) => wb_mode!(2, 16, a, p),
+        (16, 2) => wb_mode!(16, 2, a, p),
+        (2, 8) => wb_mode!(2, 8, a, p),
+        (8, 2) => wb_mode!(8, 2, a, p),
+        (10, 16) => wb_mode!(10, 16, a, p),
+        (16, 10) => wb_mode!(16, 10, a, p),
+        (3, 10) => wb_mode!(3, 10, a, p),
+        (10, 3) => wb_mode!(10, 3, a, p),
+        (2, 3) => wb_mode!(2, 3, a, p),
+        (3, 2) => wb_mode!(3, 2, a, p),
+        (36, 10) => wb_mode!(36, 10, a, p),
+        (10, 36) => wb_mode!(10, 36, a, p),
+        (8, 16) => wb_mode!(8, 16, a, p),
+        (10, 10) => wb_mode!(10, 10, a, p),
+        _ => Err(format!("bad-arg base-pair {} {}", a.base, nb)),
+    }
+}
+
+fn from_float<R: Round>(bits: u64, is64: bool) -> Res {
+    let rs = if is64 {
+        let f = f64::from_bits(bits);
+        vec![
+            run1t(|| match FBig::<R, 2>::try_from(f) {
+                Ok(v) => ff(&v),
+                Err(_) => "err OutOfBounds".to_string(),
+            }),
+            run1t(|| match Repr::<2>::try_from(f) {
+                Ok(r) => {
+                    if r.is_infinite() {
+                        if r.sign() == dashu_base::Sign::Negative { "-inf".into() } else { "inf".into() }
+                    } else {
+                        format!("{} {}", f_ibig(r.significand()), r.exponent())
+                    }
+                }
+                Err(_) => "err OutOfBounds".to_string(),
+            }),
+        ]
+    } else {
+        let f = f32::from_bits(bits as u32);
+        vec![
+            run1t(|| match FBig::<R, 2>::try_from(f) {
+                Ok(v) => ff(&v),
+                Err(_) => "err OutOfBounds".to_string(),
+            }),
+            run1t(|| match Repr::<2>::try_from(f) {
+                Ok(r) => {
+                    if r.is_infinite() {
+                        if r.sign() == dashu_base::Sign::Negative { "-inf".into() } else { "inf".into() }
+                    } else {
+                        format!("{} {}", f_ibig(r.significand()), r.exponent())
+                    }
+                }
+                Err(_) => "err OutOfBounds".to_string(),
+            }),
+        ]
+    };
+    // the FBig form additionally carries the precision: compare only the repr part
+    let a = rs[0].clone();
+    let b = rs[1].clone();
+    let a_repr = if a.starts_with("ok ") && a.matches(' ').count() == 3 { a.rsplitn(2, ' ').nth(1).unwrap().to_string() } else { a.clone() };
+    if a_repr != b {
+        return Err(format!("forms-disagree [FBig: {}] [Repr: {}]", a.replace(' ', "_"), b.replace(' ', "_")));
+    }
+    merge_parse(&["FBig"], vec![a])
+}
+
+pub fn dispatch_float(op: &str, args: &[&str]) -> Option<Res> {
+    if !op.starts_with("f.") {
+        return None;
+    }
+    Some((|| -> Res {
+        match op {
+            "f.parse" => {
+                let base = p_usize(arg(args, 0)?)? as u64;
+                let mode = arg(args, 1)?.chars().next().ok_or("bad-arg mode")?;
+                let s = p_str(arg(args, 2)?)?;
+                fbase_table!(fparse, base, mode, &s)
+            }
+            "f.fmt" => {
+                let a = p_farg(arg(args, 4)?)?;
+                fbase_table!(frun, a.base, a.mode, op, args)
+            }
+            "f.rt" => {
+                let a = p_farg(arg(args, 0)?)?;
+                fbase_table!(frun, a.base, a.mode, op, args)
+            }
+            "f.with_base" => {
+                let nb = p_usize(arg(args, 0)?)? as u64;
+                let a = p_farg(arg(args, 1)?)?;
+                with_base(&a, nb, None)
+            }
+            "f.with_base_prec" => {
+                let nb = p_usize(arg(args, 0)?)? as u64;
+                let p = p_usize(arg(args, 1)?)?;
+                let a = p_farg(arg(args, 2)?)?;
+                with_base(&a, nb, Some(p))
+            }
+            "f.from_f32" | "f.from_f64" => {
+                let bits = u64::from_str_radix(arg(args, 0)?, 16).map_err(|_| "bad-arg bits".to_string())?;
+                let mode = arg(args, 1)?.chars().next().ok_or("bad-arg mode")?;
+                let is64 = op == "f.from_f64";
+                match mode {
+                    'Z' => from_float::<mode::Zero>(bits, is64),
+                    'A' => from_float::<mode::Away>(bits, is64),
+                    'U' => from_float::<mode::Up>(bits, is64),
+                    'D' => from_float::<mode::Down>(bits, is64),
+                    'E' => from_float::<mode::HalfEven>(bits, is64),
+                    'H' => from_float::<mode::HalfAway>(bits, is64),
+                    m => Err(format!("bad-arg mode {}", m)),
+                }
+            }
+            _ => Err(format!("bad-op {}", op)),
+        }
+    })())
 }
